@@ -450,19 +450,29 @@ struct RawFrame {
     ss: u64,
 }
 
+/// Scalar volatile reads: the optimiser must not merge them into 16-byte aligned vector loads
+/// (LLVM's alignment assumption for the by-value frame of an x86-interrupt function is off by 8).
 unsafe fn selftest_record(f: &RawFrame, index: u64, err: Option<u64>) {
+    let p = f as *const RawFrame as *const u64;
+    let (rip, cs, flags, rsp, ss) = (
+        core::ptr::read_volatile(p),
+        core::ptr::read_volatile(p.add(1)),
+        core::ptr::read_volatile(p.add(2)),
+        core::ptr::read_volatile(p.add(3)),
+        core::ptr::read_volatile(p.add(4)),
+    );
     SEEN.calls += 1;
     SEEN.index = index;
     SEEN.err = err;
-    SEEN.rip = f.rip;
-    SEEN.cs = f.cs & 0xffff;
-    SEEN.flags = f.flags;
-    SEEN.rsp = f.rsp;
-    SEEN.ss = f.ss & 0xffff;
+    SEEN.rip = rip;
+    SEEN.cs = cs & 0xffff;
+    SEEN.flags = flags;
+    SEEN.rsp = rsp;
+    SEEN.ss = ss & 0xffff;
     if LEAVE_BY_IRETQ {
         asm!(
             "push {ss}", "push {rsp}", "push {fl}", "push {cs}", "push {rip}", "iretq",
-            ss = in(reg) f.ss, rsp = in(reg) f.rsp, fl = in(reg) f.flags, cs = in(reg) f.cs, rip = in(reg) f.rip,
+            ss = in(reg) ss, rsp = in(reg) rsp, fl = in(reg) flags, cs = in(reg) cs, rip = in(reg) rip,
             options(noreturn)
         );
     }
